@@ -42,7 +42,7 @@ func genC06(rt *rapid.T) CaseC06 {
 	for i := 0; i < n; i++ {
 		kinds := []string{"put", "put", "put", "del", "del"}
 		if c.Writers > 1 {
-			kinds = append(kinds, "sync", "sync")
+			kinds = append(kinds, "sync", "sync", "put-merge-inside", "del-merge-inside")
 		}
 		op := KVOp{Kind: rapid.SampledFrom(kinds).Draw(rt, "kind"), W: rapid.IntRange(0, c.Writers-1).Draw(rt, "w")}
 		switch op.Kind {
@@ -52,6 +52,11 @@ func genC06(rt *rapid.T) CaseC06 {
 			op.Tag = rapid.IntRange(0, 9).Draw(rt, "tag")
 		case "del":
 			op.Key = rapid.IntRange(0, len(kvKeys)-1).Draw(rt, "key")
+		case "put-merge-inside", "del-merge-inside":
+			op.Key = rapid.IntRange(0, len(kvKeys)-1).Draw(rt, "key")
+			op.Val = rapid.IntRange(0, len(kvVals)-1).Draw(rt, "val")
+			op.Tag = rapid.IntRange(0, 9).Draw(rt, "tag")
+			op.From = rapid.IntRange(0, c.Writers-1).Draw(rt, "from")
 		case "sync":
 			op.From = rapid.IntRange(0, c.Writers-1).Draw(rt, "from")
 		}
@@ -147,6 +152,45 @@ func execC06(c CaseC06) *Outcome {
 				return fail("step %d: %v", step, err)
 			}
 			deleted[op.Key] = true
+		case "put-merge-inside", "del-merge-inside":
+			// a replication of everything replica src holds completes inside the write call of replica w
+			src := op.From % c.Writers
+			if src == w {
+				src = (w + 1) % c.Writers
+			}
+			k, v := kvKeys[op.Key], kvValue(op.Val, op.Tag)
+			mop := model.Op{Kind: "PUT", Key: k, Val: v}
+			h, parked, err := writeWithMergeInside(cl, w, src, func() (string, error) {
+				if op.Kind == "put-merge-inside" {
+					r, err := kv.Put(ctx, k, v)
+					if err != nil {
+						return "", err
+					}
+					return r.GetEntry().GetHash().String(), nil
+				}
+				mop = model.Op{Kind: "DEL", Key: k}
+				r, err := kv.Delete(ctx, k)
+				if err != nil {
+					return "", err
+				}
+				return r.GetEntry().GetHash().String(), nil
+			})
+			if err == world.ErrInconclusive {
+				o.Inconclusive = true
+				return o
+			}
+			if err != nil {
+				return fail("step %d: %s on replica %d with a merge from %d inside: %v", step, op.Kind, w, src, err)
+			}
+			if err := tr.noteOwnWrite(s, w, before, h, mop); err != nil {
+				return fail("step %d: %v", step, err)
+			}
+			if op.Kind == "del-merge-inside" {
+				deleted[op.Key] = true
+			}
+			if parked {
+				o.Labels = append(o.Labels, "merge-inside-write")
+			}
 		case "sync":
 			src := op.From % c.Writers
 			if src == w {
